@@ -81,6 +81,15 @@ Theorem C01_parse_show : forall sty path e (t : tok) (rest : list tok),
 Proof. exact parse_show_top. Qed.
 Print Assumptions C01_parse_show.
 
+(* an implicit print can start with any expression: the first item of the token sequence of every Spec
+   expression (any parenthesis style, any number kk of enclosing parentheses) is one of the eleven
+   item types that start an expression (the command-level parser's beginTag case list; its tie to the
+   Go source is the parser correspondence of C17/C05) -- cited from Proofs/ExprParserProofs.v *)
+Theorem C01_implicit_print_start : forall sty e path kk, syntax_ok e ->
+  exists x l, parens kk (show sty path (to_node [] e)) = x :: l /\ mem (t_typ x) expr_start_types = true.
+Proof. intros sty e path kk H. exact (show_starts_expression sty (to_node [] e) (src_wf (height e) e (le_n _) H) path kk). Qed.
+Print Assumptions C01_implicit_print_start.
+
 (* tokens -> tree -> compiled tree -> value: for every Spec expression with a concrete syntax, its
    token sequence (any parenthesis style) parses to to_node [] e, SetNodeGlobals makes it
    to_node G e, and the walker evaluates that to what the Spec says *)
